@@ -679,9 +679,17 @@ class Unit:
         spec.used = True
         nodes = it["nodes"]
         pick_first = first_rx.startswith("first:")
-        first_rx = first_rx[6:] if pick_first else first_rx
+        after = first_rx.startswith("after:")
+        first_rx = first_rx[6:] if (pick_first or after) else first_rx
         frx, lrx = re.compile(first_rx), re.compile(last_rx)
         firsts = [n for n in nodes if n["k"] == "stmt" and frx.match(src.text(*n["span"]))]
+        if after:
+            # the slice starts with the statement that FOLLOWS the matching one in the same block
+            nxt = []
+            for f0 in firsts:
+                sib = [n for n in nodes if n["k"] == "stmt" and n["block"] == f0["block"] and n["idx"] == f0["idx"] + 1]
+                nxt += sib
+            firsts = nxt
         if pick_first and firsts:
             firsts = sorted(firsts, key=lambda n: n["span"][0])[:1]
         lasts = [n for n in nodes if n["k"] == "stmt" and lrx.match(src.text(*n["span"]))]
